@@ -238,7 +238,8 @@ class C06(Prop):
                     return f"{where}: bucket operation returned but is not durable"
                 if not lazy and match != j:
                     return f"{where}: store without lazy commit, completed operation not durable"
-                lost = sum(commitlib.n_writes(o) for o in out["resolved"][match:j])
+                lost = sum(commitlib.n_writes(o) for o, st in zip(out["resolved"][match:j], out["steps"][match:j])
+                           if st["out"][0] == "ok")  # a rejected operation wrote nothing
                 if lost > 50:
                     return f"{where}: {lost} event writes (more than 50) would be lost in a crash now"
             return None
